@@ -166,6 +166,12 @@ def cfg_hist(case, toks, log, items):
         return v
     bl = next((k for k, t in enumerate(toks) if oracles.strip_growth(t).startswith('E:bl')), None)
     if bl is not None:
+        # ... but only a size that the record being parsed needs: a refusal at a capacity the record fits into makes the
+        # result depend on the configuration (the clause of C01 / C02 / C09)
+        g = oracles.growth_oracle(case, toks, log, items)
+        if g.failures:
+            g.failures[0] = 'buffer-limit error under this configuration only, for a record that fits: ' + g.failures[0]
+            return g
         case = dict(case, ops=case['ops'][:bl])
         toks = toks[:bl]
     v = oracles.history_oracle(case, toks, items, positions=True, err_fields=True, sets=False)
@@ -254,14 +260,16 @@ PROPS['C06'] = dict(
 PROPS['C09'] = dict(
     theorems=[],
     runner=ReaderRunner(
-        quick=[('fa_rand', 10000), ('fq_rand', 10000), ('fa_fault', 4000), ('fq_fault', 4000), ('pol', 3000)],
+        quick=[('fa_rand', 10000), ('fq_rand', 10000), ('fa_fault', 4000), ('fq_fault', 4000), ('pol', 3000),
+               ('fa_path', 1500), ('fq_path', 1500)],
         thorough=[('fa_rand', 200000), ('fq_rand', 200000), ('fa_hist', 50000), ('fq_hist', 50000), ('fa_fault', 50000), ('fq_fault', 50000),
-                  ('pol', 100000)],
+                  ('pol', 100000), ('fa_path', 20000), ('fq_path', 20000)],
         oracle=growth, keep_growth=True),
     rule='recording policies (built-in, slowly growing, table-driven, refusing); request log compared exactly with the model '
          'and checked: chain of capacities, buffer-limit iff refused, request only when the record being parsed does not fit; '
          'the built-in policies asked directly with capacities around their thresholds and limits (0..3, t-2..t+2, l-t-2..l+2, 2^23 +- 2, 2^40) '
-         'and compared with the model and with the documented arithmetic',
+         'and compared with the model and with the documented arithmetic; readers opened from a file path (default and explicit '
+         'capacity, files with a single record among them) with a recording policy set on them',
     assumptions=ASSUME_READER,
 )
 _c09 = PROPS['C09']['runner']
@@ -306,7 +314,8 @@ PROPS['C10'] = dict(
          'FASTA writer entry points, plus random headers / id+description / sequences and records written back to back; output '
          'compared byte-exactly with the model, parsed back with the real reader; non-trivial = inside the documented domain. Every '
          'call is made twice, into a Vec<u8> and into a writer that accepts 1-3 bytes per write() and has only the default '
-         'write_vectored: both must receive the same bytes. Records returned by the FASTA reader (random inputs and histories) are '
+         'write_vectored: both must receive the same bytes; before them the same call is made into a writer that fails after a few '
+         'bytes (error ignored, same thread). Records returned by the FASTA reader (random inputs and histories) are '
          'written with RefRecord::write and write_wrap(3) into such a writer and compared with the model and with the layout the '
          'documentation prescribes for the record\'s own head and sequence',
     assumptions=['the io::Write never fails (short writes and the default write_vectored are exercised)'],
@@ -540,7 +549,10 @@ PROPS['C03'] = dict(
     rule='every generated input (valid, mutated) is read under six configurations (capacity 3 with 1-byte reads; small capacity with a '
          'slowly growing policy, 2-byte reads and interrupted reads; capacity near the input length; 64; larger than the input; '
          'table-driven policy) and the complete observation streams (records, positions, errors with all fields, place of the end) are '
-         'compared with each other; non-trivial group = at least one record or error',
+         'compared with each other; in a quarter of the groups the large-capacity configuration is a reader opened with '
+         'from_path_with_capacity under a limited policy that allows no growth; a buffer-limit error counts as the documented end of a '
+         'configuration only if the record being parsed does not fit the capacity at which the policy refused; '
+         'non-trivial group = at least one record or error',
     assumptions=ASSUME_READER,
 )
 
@@ -648,15 +660,18 @@ PROPS['C19'] = dict(
     runner=ReaderRunner(
         quick=[('fa_json', 3000), ('fq_json', 3000)], thorough=[('fa_json', 60000), ('fq_json', 60000)],
         oracle=jsonrt),
-    rule='owned records and record sets (fresh, refilled, reused with stale offsets beyond their length, after exact-count reads) '
+    rule='owned records and record sets (fresh, refilled, reused with stale offsets beyond their length, after exact-count reads; a third of '
+         'the FASTA inputs wrapped at a fixed width with a shorter, equal or longer last line and stray CRs) '
          'serialised with serde_json, deserialised and compared record by record; the JSON text is compared byte-exactly with the '
          "model's rendering of the serde data model",
     assumptions=ASSUME_READER + ['serde derive expansion and serde_json are observed through the JSON text, not verified'],
 )
 PROPS['C20'] = dict(
     theorems=[],
-    runner=SimpleRunner(quick=[('iter', 7), ('fa_zero', 1500), ('fq_zero', 1500), ('fa_hist', 3000), ('fq_hist', 3000)],
-                        thorough=[('iter', 11), ('fa_zero', 40000), ('fq_zero', 40000), ('fa_hist', 60000), ('fq_hist', 60000)],
+    runner=SimpleRunner(quick=[('iter', 7), ('fa_zero', 1500), ('fq_zero', 1500), ('fa_hist', 3000), ('fq_hist', 3000),
+                               ('fa_fault', 4000), ('fq_fault', 4000)],
+                        thorough=[('iter', 11), ('fa_zero', 40000), ('fq_zero', 40000), ('fa_hist', 60000), ('fq_hist', 60000),
+                                  ('fa_fault', 80000), ('fq_fault', 80000)],
                         raw_oracle=lambda c, o, s: oracles.fused_oracle(c, o, s) if c.startswith('F ') else
                         (oracles.recset_iter_oracle(c, o, s) if c.startswith('R ') else oracles.iter_oracle(c, o, s)),
                         exact_kinds=('I',)),
@@ -665,7 +680,8 @@ PROPS['C20'] = dict(
          'iterators and owned-record iterators of both formats driven past their end; the iterator of every record set that a '
          'random reader history dumps (reused sets, sets refilled with fewer records than before, sets left behind by errors) driven '
          'step by step: size hint brackets the remaining count, item count = len(), fused; owned/next iteration over sources that report '
-         'Ok(0) and deliver data later (fusedness; no model involved)',
+         'Ok(0) and deliver data later (fusedness; no model involved); histories with failing reads and seeks and refusing policies: '
+         'once the end was reported only a seek that SUCCEEDS lets the reader deliver again',
     assumptions=[],
 )
 
